@@ -50,6 +50,14 @@ pub fn build_scenario(rng: &Rng, ov: &Value, fams: &[Family], n_stmts: usize, sa
 
 pub fn compare(st: &Stmt, expect: &Outcome, got: &Outcome) -> Result<(), (String, String)> {
     match (expect, got) {
+        (Outcome::Rows(a), Outcome::Rows(b)) if st.features.iter().any(|f| f == "unordered_page") => {
+            // LIMIT/OFFSET without ORDER BY: which rows is unspecified, how many is not
+            if a.len() == b.len() {
+                Ok(())
+            } else {
+                Err(("row-count-differs".to_string(), format!("an unordered page of {} rows came back with {} rows", a.len(), b.len())))
+            }
+        }
         (Outcome::Rows(a), Outcome::Rows(b)) => {
             let r = if st.order_keys.is_empty() { canon::same_multiset(a, b) } else { canon::same_ordered(a, b, &st.order_keys) };
             r.map_err(|d| {
@@ -101,6 +109,18 @@ pub fn shrink_candidates(ov: &Value, v: &Violation) -> Vec<Value> {
                 c["nodes"] = json!(next);
                 out.push(c);
             }
+        }
+    }
+    // wire-level offset enumeration: last of all, pin the one offset that failed
+    if base.get("only_offset").is_none() {
+        if let (Some(k), Some(kind)) = (v.context.get("offset").and_then(|x| x.as_u64()), v.context.get("kind").and_then(|x| x.as_str())) {
+            let mut c = base.clone();
+            c["only_offset"] = json!(k);
+            c["only_kind"] = json!(kind);
+            if let Some(r) = v.context.get("region").and_then(|x| x.as_str()) {
+                c["only_region"] = json!(r);
+            }
+            out.push(c);
         }
     }
     out
